@@ -788,6 +788,88 @@ def shared_state_findings():
     return sorted(set(findings)), sorted(readonly), sorted(set(outside))
 
 
+# ------------------------------------------------------------------------------------------------
+# object state beyond the modelled cells: a store to ANY attribute of an existing object (self / other / an argument / an
+# object reached from them) inside a method of the classes C18 is about, other than the two modelled point cells and the
+# key's point reference.  Stores that initialise a FRESH object are construction, not shared state: `__init__` /
+# `__setstate__` on `self`, and stores through a local that the same function bound to a constructor call
+# (`self = cls(...)`, `vk = VerifyingKey(...)`, `object.__new__(cls)`).
+OBJECT_STATE_CLASSES = {"ellipticcurve.py": ("PointJacobi", "Point", "CurveFp"),
+                        "ecdsa.py": ("Public_key", "Private_key", "Signature"),
+                        "keys.py": ("VerifyingKey", "SigningKey")}
+MODELLED_CELLS = {("PointJacobi", "self", "__coords"), ("PointJacobi", "self", "__precompute")}
+
+
+def _attr_chain(e):
+    """`a.b.c` -> ["a", "b", "c"]; None when the root is not a plain name"""
+    out = []
+    while isinstance(e, ast.Attribute):
+        out.append(e.attr)
+        e = e.value
+    if isinstance(e, ast.Name):
+        out.append(e.id)
+        return out[::-1]
+    return None
+
+
+def extra_object_state_findings():
+    """-> (findings in the classes in scope, the same kind of store in other classes of the three modules)"""
+    findings, outside = [], []
+    for fn in ("ellipticcurve.py", "ecdsa.py", "keys.py"):
+        tree = ast.parse(open(os.path.join(common.SRC, "ecdsa", fn)).read())
+        mod = fn[:-3]
+        classes = {n.name for n in tree.body if isinstance(n, ast.ClassDef)}
+        for cnode in [n for n in tree.body if isinstance(n, ast.ClassDef)]:
+            sink = findings if cnode.name in OBJECT_STATE_CLASSES.get(fn, ()) else outside
+            for f in [m for m in cnode.body if isinstance(m, (ast.FunctionDef, ast.AsyncFunctionDef))]:
+                where = "%s.%s.%s" % (mod, cnode.name, f.name)
+                params = [a.arg for a in f.args.posonlyargs + f.args.args + f.args.kwonlyargs]
+                is_cm = any(isinstance(d, ast.Name) and d.id == "classmethod" for d in f.decorator_list)
+                fresh = set()       # locals bound (only) to a constructor call in this function
+                bound_other = set()
+                for n in ast.walk(f):
+                    if isinstance(n, ast.Assign):
+                        for t in n.targets:
+                            if isinstance(t, ast.Name):
+                                v = n.value
+                                ctor = isinstance(v, ast.Call) and (
+                                    (isinstance(v.func, ast.Name) and (v.func.id == "cls" or v.func.id in classes)) or
+                                    (isinstance(v.func, ast.Attribute) and v.func.attr == "__new__"))
+                                (fresh if ctor else bound_other).add(t.id)
+                fresh -= bound_other
+                fresh -= set(params) - ({"self"} if is_cm else set())
+                for n in ast.walk(f):
+                    stores = []
+                    if isinstance(n, ast.Attribute) and isinstance(n.ctx, (ast.Store, ast.Del)):
+                        stores.append((n, "store to" if isinstance(n.ctx, ast.Store) else "deletion of"))
+                    if isinstance(n, ast.Call) and isinstance(n.func, ast.Name) and n.func.id in ("setattr", "delattr") and n.args:
+                        ch = _attr_chain(n.args[0]) or ["?"]
+                        if not (ch[0] in fresh or (ch == ["self"] and f.name in ("__init__", "__setstate__"))):
+                            sink.append("%s line %d: %s() on %s" % (where, n.lineno, n.func.id, ".".join(ch)))
+                    if isinstance(n, ast.Call) and isinstance(n.func, ast.Attribute) and n.func.attr in MUTATORS:
+                        ch = _attr_chain(n.func.value)
+                        if ch and ch[-1] == "__dict__" and not (ch[0] in fresh or (ch[0] == "self" and f.name in ("__init__", "__setstate__"))):
+                            sink.append("%s line %d: .%s() of %s" % (where, n.lineno, n.func.attr, ".".join(ch)))
+                    for node, how in stores:
+                        ch = _attr_chain(node)
+                        if ch is None:
+                            sink.append("%s line %d: %s an attribute of a computed object (.%s)" % (where, node.lineno, how, node.attr))
+                            continue
+                        root, attr = ch[0], ch[-1]
+                        if root in fresh:
+                            continue
+                        if root == "self" and f.name in ("__init__", "__setstate__") and not is_cm:
+                            continue
+                        if root == "cls" or root in classes:
+                            continue      # class attributes: reported by shared_state_findings
+                        if len(ch) == 2 and (cnode.name, root, attr) in MODELLED_CELLS:
+                            continue
+                        if cnode.name == "VerifyingKey" and f.name == "precompute" and ch == ["self", "pubkey", "point"]:
+                            continue      # the key's point reference (modelled: mKeyPrecompute, one store)
+                        sink.append("%s line %d: %s %s" % (where, node.lineno, how, ".".join(ch)))
+    return sorted(set(findings)), sorted(set(outside))
+
+
 def _lean_tok(t):
     if t[0] in ("R", "W"):
         return ".%s .%s .%s" % t
@@ -887,6 +969,13 @@ def generate():
     L.append("def readonly_module_containers : List String := [%s]" % ", ".join('"%s"' % x for x in readonly))
     L.append("/-- the same kind of finding in functions that are NOT reachable from the modelled operations (outside C18's scope) -/")
     L.append("def shared_state_outside_scope : List String := [%s]" % ", ".join('"%s"' % x.replace('"', "'") for x in outside))
+    extra, extra_out = extra_object_state_findings()
+    L.append("/-- stores to attributes of EXISTING objects (self / other / arguments / objects reached from them) other than the two")
+    L.append("modelled cells of a PointJacobi and the key's point reference, in the methods of PointJacobi, Point, CurveFp, Public_key,")
+    L.append("Private_key, Signature, VerifyingKey, SigningKey (construction of a fresh object excluded); must be empty -/")
+    L.append("def extra_object_state : List String := [%s]" % ", ".join('"%s"' % x.replace('"', "'") for x in extra))
+    L.append("/-- the same kind of store in the other classes of the three modules (outside C18's scope) -/")
+    L.append("def object_state_outside_scope : List String := [%s]" % ", ".join('"%s"' % x.replace('"', "'") for x in extra_out))
     L.append("")
     L.append("def touched : List String := [%s]" % ", ".join('"%s"' % m for m in names))
     L.append("def untouched : List String := [%s]" % ", ".join('"%s"' % m for m in sorted(sk) if m not in relevant))
